@@ -262,7 +262,8 @@ def check_unescape(ctx):
     single = {}
     hexd = {}
     widths = []
-    for m in sir.walk(f.body):
+    # the tables may live in private helpers of the literal parser (extracting one is not a change of behaviour)
+    for m in sir.walk_reach(tc, f):
         if m.get("k") != "match":
             continue
         for a in m["arms"]:
@@ -275,7 +276,7 @@ def check_unescape(ctx):
                 elif b.get("k") == "lit" and b.get("t") == "int":
                     for c in cases:
                         hexd[c["e"]["v"]] = int(b["v"])
-    for n in sir.walk(f.body):
+    for n in sir.walk_reach(tc, f):
         if n.get("k") == "if" and n["cond"].get("k") == "binary" and n["cond"]["op"] == "==" and n["cond"]["r"].get("k") == "lit" and n["cond"]["r"].get("v") in ("x", "u"):
             which = n["cond"]["r"]["v"]
 
@@ -302,7 +303,7 @@ def check_unescape(ctx):
         if which == "u" and t == 4 and e == 2:
             wok = True
     obs.append(ob("C12.unescape/widths", wok, where, "\\x / \\u digit counts: %s (expected 2 / 4)" % widths))
-    acc = [n for n in sir.walk(f.body) if n.get("k") == "assign" and n["r"].get("k") == "binary" and n["r"]["op"] == "+" and n["r"]["l"].get("k") == "binary" and n["r"]["l"]["op"] == "*"]
+    acc = [n for n in sir.walk_reach(tc, f) if n.get("k") == "assign" and n["r"].get("k") == "binary" and n["r"]["op"] == "+" and n["r"]["l"].get("k") == "binary" and n["r"]["l"]["op"] == "*"]
     aok = any(sir.expr_str(n["r"]["l"]["r"]) == "16" and sir.expr_str(n["r"]["l"]["l"]) == sir.expr_str(n["l"]) for n in acc)
     obs.append(ob("C12.unescape/accumulate", aok, where, "hex value accumulated as v = v*16 + digit: %s" % aok))
     return obs
